@@ -9,6 +9,7 @@ import (
 
 	"golang.org/x/tools/go/ssa"
 
+	"tinkverif/bounds"
 	"tinkverif/core"
 	"tinkverif/guard"
 )
@@ -816,4 +817,69 @@ func effectsFieldName(fa *ssa.FieldAddr) string {
 		}
 	}
 	return "?"
+}
+
+// be32ByteStores reports whether fn writes the 32-bit big-endian encoding of
+// val with four explicit byte stores b[o]=byte(v>>24), b[o+1]=byte(v>>16),
+// b[o+2]=byte(v>>8), b[o+3]=byte(v), and returns the absolute offset o of the
+// first byte as a linear term (through nested re-slicings).
+func be32ByteStores(cx *bounds.Ctx, fn *ssa.Function, val ssa.Value) (string, bool) {
+	shiftOf := func(v ssa.Value) (int64, bool) {
+		// byte(x >> k) or byte(x), x the value (possibly converted)
+		for {
+			cv, ok := v.(*ssa.Convert)
+			if !ok {
+				break
+			}
+			v = cv.X
+		}
+		k := int64(0)
+		if bo, ok := v.(*ssa.BinOp); ok && bo.Op == token.SHR {
+			kk, isK := guard.ConstInt(bo.Y)
+			if !isK {
+				return 0, false
+			}
+			k, v = kk, bo.X
+		}
+		for {
+			cv, ok := v.(*ssa.Convert)
+			if !ok {
+				break
+			}
+			v = cv.X
+		}
+		if bo, ok := v.(*ssa.BinOp); ok && bo.Op == token.AND {
+			v = bo.X
+		}
+		return k, guard.Strip(v) == guard.Strip(val)
+	}
+	at := map[int64]string{}
+	atLin := map[int64]bounds.Lin{}
+	allInstrs(fn, func(ins ssa.Instruction) {
+		st, ok := ins.(*ssa.Store)
+		if !ok {
+			return
+		}
+		ia, isIA := st.Addr.(*ssa.IndexAddr)
+		if !isIA {
+			return
+		}
+		k, okS := shiftOf(st.Val)
+		if !okS {
+			return
+		}
+		_, off := absSliceStart(cx, ia.X)
+		at[k] = off.Add(cx.Lin(ia.Index), 1).String()
+		atLin[k] = off.Add(cx.Lin(ia.Index), 1)
+	})
+	if len(at) != 4 {
+		return "", false
+	}
+	base := at[24]
+	for i, k := range []int64{24, 16, 8, 0} {
+		if at[k] == "" || at[k] != atLin[24].Add(bounds.Konst(int64(i)), 1).String() {
+			return "", false
+		}
+	}
+	return base, true
 }
